@@ -73,8 +73,12 @@ def text(s):
 
 def check_text_fields(ctx, fields, args, names, limited, what):
     for i, n in names.items():
-        if fields[i] != text(args[n]):
-            ctx.violate(f"C09: field {i} of the {what} record does not carry {n}")
+        if ctx.symbolic:
+            from symex.strings import field_equals
+            same = field_equals(ctx, fields[i], args[n])
+        else:
+            same = fields[i] == args[n]
+        ctx.prove(same, f"C09: field {i} of the {what} record does not carry {n}")
         ctx.prove(ctx.not_(has_sep(ctx, args[n])), f"C09: a separator inside {n} was accepted ({what})")
         if n in limited:
             ctx.prove(ctx.le(length(ctx, args[n]), 32), f"C09: {n} longer than 32 characters was accepted ({what})")
